@@ -54,7 +54,7 @@ def plan(tier, seed):
 def mandatory_bins(tier):
     b = ["sel_%d_explicit" % s for s in range(4)] + ["sel_%d_no_encryptors" % s for s in range(4)] + ["sel_%d_only_other_selectors" % s for s in range(4)] + ["sel_%d_default_encryptor_object" % s for s in range(4)]
     b += ["scalar_1", "scalar_2", "scalar_n-2", "scalar_n-1", "scalar_2^k", "scalar_2^k-1", "scalar_random", "key_trailing_zero", "key_all_zero", "model_block_opened_by_real_decryptor",
-          "whole_file_with_ecc_block", "published_keys_pinned", "explicit_recipients_created_before_first_default_use", "encryptors_given_as_one_shot_iterator", "encryptors_given_as_generator", "blocks_packed_by_concurrent_threads", "one_recipient_key_object_reused_for_many_blocks", "recipient_key_buffer_reused_by_the_caller_afterwards"]
+          "whole_file_with_ecc_block", "published_keys_pinned", "explicit_recipients_created_before_first_default_use", "encryptors_given_as_one_shot_iterator", "encryptors_given_as_generator", "blocks_packed_by_concurrent_threads", "one_recipient_key_object_reused_for_many_blocks", "recipient_key_buffer_reused_by_the_caller_afterwards", "recipient_added_to_the_same_list_after_a_default_pack"]
     b += ["invalid:" + c for c in INVALID_CLASSES]
     return b
 
@@ -341,6 +341,7 @@ def run_default(ns, ctx, spec):
                     continue
             pin.next_priv = eph
             n0 = len(pin.dh_peers)
+            encs_before = list(encs)
             try:
                 blk = B.InitEccAuthBlock(sel).pack(key, encs) if how != "no_encryptors" or idx % 2 else B.InitEccAuthBlock(sel).pack(key)
                 ctx.mon("pack")
@@ -368,6 +369,24 @@ def run_default(ns, ctx, spec):
                 ctx.violation("default_recipient:key_agreement_made_with_another_public_key", {"sel": sel, "how": how, "dh_calls": len(peers)}, rp)
             if j == 0:
                 ctx.sample({"kind": "default", "sel": sel, "how": how, "block": blk})
+            # history on the caller's OWN list object: packing must leave it as it was, and a recipient the caller adds to it afterwards
+            # is the recipient of the next block
+            changed = len(encs) != len(encs_before) or any(a is not b for a, b in zip(encs, encs_before))
+            if changed:
+                ctx.note("pack_changed_the_callers_encryptor_list")  # not a verdict by itself; its consequence is judged below
+            if how != "default_encryptor_object" and (j % 3 == 0 or changed):
+                p2 = rng.randrange(1, ecies.P256_N)
+                key2 = gen_session_key(ctx, rng)
+                encs.append(B.EccEncryptor(sel, GB.private_key_obj(ns, p2).public_key))
+                ctx.ev()
+                ctx.bin("recipient_added_to_the_same_list_after_a_default_pack")
+                try:
+                    blk2 = B.InitEccAuthBlock(sel).pack(key2, encs)
+                    ctx.mon("pack")
+                except Exception as e:
+                    ctx.violation("pack_raises", {"exc": fmt_exc(e), "how": "recipient added to the same list after a default pack"}, rp)
+                    continue
+                check_block(ctx, blk2, sel, p2, key2, dict(rp, key=key2.hex(), priv=hex(p2)), "recipient_added_to_the_same_list_after_a_default_pack")
     finally:
         pin.remove()
 
